@@ -64,7 +64,7 @@ Definition mul (a b : Z) : Z := cS (aC (Z.rem (aC (cC a * cC b)) pc)).
 Definition sub (a b : Z) : Z :=
   cS (if a <? b then aS (aS (cS p - b) + a) else aS (a - b)).
 
-(* GenericAdd, unsigned TElem:  r = a + b; (r >= Caster<TElem>(_p) || r < a) ? r -= Caster<TElem>(_p) : r
+(* GenericAdd, unsigned TElem:  const TElem s = Caster<TElem>(a + b); r = (s >= Caster<TElem>(_p) || s < a) ? Caster<TElem>(s - Caster<TElem>(_p)) : s
    GenericAdd, signed TElem: U rr(Caster<U>(a)+Caster<U>(b));
         r = Caster<TElem>(rr >= Caster<U>(_p) || rr < Caster<U>(a) ? rr -= Caster<U>(_p) : rr) *)
 Definition add (a b : Z) : Z :=
@@ -75,7 +75,7 @@ Definition add (a b : Z) : Z :=
     let r := cS (aS (a + b)) in
     if (cS p <=? r) || (r <? a) then cS (aS (r - cS p)) else r.
 
-(* GenericAddIN, unsigned: r += a; r = (r >= Caster<TElem>(_p) || r < a) ? r - Caster<TElem>(_p) : r      (a = the SECOND operand)
+(* GenericAddIN, unsigned: const TElem s = Caster<TElem>(r + a); r = (s >= Caster<TElem>(_p) || s < a) ? Caster<TElem>(s - Caster<TElem>(_p)) : s   (a = the SECOND operand)
    GenericAddIN, signed:   U rr(r); rr += Caster<U>(a); r = Caster<TElem>(rr >= Caster<U>(_p) || rr < Caster<U>(a) ? rr -= Caster<U>(_p) : rr) *)
 Definition addin (r0 a : Z) : Z :=
   if sgn s then
@@ -132,9 +132,9 @@ Definition inv (fuel : nat) (a : Z) : option Z :=
   | Some (x, _) => Some (if x <? 0 then cS (aS (x + cS p)) else x)
   | None => None
   end.
-(* div: mulin(inv(r, b), a)     divin: mulin(r, inv(ia, a)) *)
+(* div: Element ib; mul(r, a, inv(ib, b))     divin: mulin(r, inv(ia, a)) *)
 Definition div (fuel : nat) (a b : Z) : option Z :=
-  match inv fuel b with Some ib => Some (mul ib a) | None => None end.
+  match inv fuel b with Some ib => Some (mul a ib) | None => None end.
 Definition divin (fuel : nat) (r a : Z) : option Z :=
   match inv fuel a with Some ia => Some (mul r ia) | None => None end.
 (* isUnit (modular-implem.h): extended_euclid(u,d,a,Caster<Element>(_p)); return isOne(d) || isMOne(d) *)
